@@ -83,6 +83,9 @@ func (bucket *Bucket) _closeSqliteDB() {
 
 // Closes a bucket and deletes its directory and files (unless it's in-memory.)
 func (bucket *Bucket) CloseAndDelete(ctx context.Context) (err error) {
+	// Stop the expiry timer before taking the bucket mutex: an expiry run that is in flight needs
+	// that mutex to finish, and stop() waits for it.
+	bucket.expManager.stop()
 	bucket.mutex.Lock()
 	defer bucket.mutex.Unlock()
 	bucket.closed = true // a later Close() of this handle must not touch the registry again
